@@ -23,6 +23,7 @@
 #include <set>
 #include <sstream>
 #include <sys/stat.h>
+#include <time.h>
 
 using namespace vh;
 
@@ -1077,11 +1078,27 @@ std::string eqMath(const std::vector<std::pair<std::string, std::string>> &eqs)
 
 int64_t vh_case_count(const std::string &tier, uint64_t)
 {
-    return tier == "thorough" ? 20000 : 2000;
+    return tier == "thorough" ? 12000 : 1600;
+}
+
+static double nowMs()
+{
+    struct timespec ts;
+    clock_gettime(CLOCK_MONOTONIC, &ts);
+    return ts.tv_sec * 1e3 + ts.tv_nsec / 1e6;
 }
 
 void vh_run_case(Ctx &ctx)
 {
+    static const bool timing = getenv("C08_TIMING") != nullptr;
+    double t0 = nowMs();
+    auto lap = [&](const char *what) {
+        if (timing) {
+            double t = nowMs();
+            fprintf(stderr, "T %s %.1f\n", what, t - t0);
+            t0 = t;
+        }
+    };
     Rng &rng = ctx.rng;
     PoolIR P;
     {
@@ -1091,6 +1108,7 @@ void vh_run_case(Ctx &ctx)
     const std::string poolText = describePool(P);
     Reducer R(P);
 
+    lap("gen");
     stage("build");
     Built B = buildPool(P, nullptr);
     std::vector<Member> mem;
@@ -1148,6 +1166,7 @@ void vh_run_case(Ctx &ctx)
         return "pair: " + mem[i].name + " , " + mem[j].name + "\n" + describeClosure(P, {mem[i].name, mem[j].name}) + "--- whole pool ---\n" + poolText;
     };
 
+    lap("build");
     // ---------------- (1) the Units functions ----------------
     stage("units-functions");
     std::vector<std::vector<char>> comp(N, std::vector<char>(N, 0));
@@ -1351,6 +1370,7 @@ void vh_run_case(Ctx &ctx)
         stat("undefined_or_null_pairs_judged", n);
     }
 
+    lap("units");
     // ---------------- (2a) Validator: connected variables ----------------
     stage("validator");
     struct VPair
@@ -1512,6 +1532,7 @@ void vh_run_case(Ctx &ctx)
         B.model[0]->removeComponent(c2);
     }
 
+    lap("validator");
     // ---------------- (2b) Analyser and generator: import-free part of the pool ----------------
     stage("analyser");
     std::vector<size_t> plain; // members usable in an analysed model: defined, import-free
@@ -1669,6 +1690,7 @@ void vh_run_case(Ctx &ctx)
                          pairReplay(ap[k].a, ap[k].b));
                 }
             }
+            lap("analyser");
             // generator
             if (doGenerate && !gp.empty()) {
                 stage("generator");
@@ -1732,6 +1754,7 @@ void vh_run_case(Ctx &ctx)
         }
     }
 
+    lap("generator+rest");
     // ---------------- evidence ----------------
     std::string h;
     for (int m = 0; m < 3; ++m) {
@@ -1751,7 +1774,16 @@ void vh_run_case(Ctx &ctx)
     stat("members", static_cast<int64_t>(N));
     stat("members_ineligible", static_cast<int64_t>(nInelig));
     stat("members_reaching_imports", static_cast<int64_t>(nImp));
+    std::string witness;
+    for (size_t i : defd) {
+        for (size_t j : defd) {
+            if (witness.empty() && i != j && comp[i][j] != 0 && !relClose(fac[i][j], 1.0, 1e-6) && mem[i].red.depth + mem[j].red.depth >= 3) {
+                witness = " | one compatible pair: scalingFactor(" + mem[i].name + ", " + mem[j].name + ") = " + num(fac[i][j]) + " with " + describeClosure(P, {mem[i].name, mem[j].name});
+                std::replace(witness.begin(), witness.end(), '\n', ';');
+            }
+        }
+    }
     std::string sample = "members=" + std::to_string(N) + " (main " + std::to_string(P.mdl[0].size()) + ", lib1 " + std::to_string(P.mdl[1].size()) + ", lib2 " + std::to_string(P.mdl[2].size()) + ", bare " + std::to_string(P.bare.size())
-                         + ") ineligible=" + std::to_string(nInelig) + " via-import=" + std::to_string(nImp) + " compatible-ordered-pairs=" + std::to_string(nCompat) + " e.g. " + describe(P.mdl[0][P.mdl[0].size() / 2], 0);
+                         + ") ineligible=" + std::to_string(nInelig) + " via-import=" + std::to_string(nImp) + " compatible-ordered-pairs=" + std::to_string(nCompat) + " e.g. " + describe(P.mdl[0][P.mdl[0].size() / 2], 0) + truncateForLog(witness, 900);
     caseInfo(hex64(fnv1a(h)), haveScaledCompat && haveIncompat, sample);
 }
